@@ -7,7 +7,7 @@ import BindgenModel.Model.C01Regions
 * `assign <hex,hex,…>` → `region=<0|1> names=<hex,…> dups=<hex,…>` (`assignNames` over the canonical
   names, i.e. after `rustMangle`; `region` = `suffixClashRegion`; `dups` = names assigned twice)
 * `collide <hex> <hex>` → `1` iff `mangleCollision a b`
-* `region opts=<15 bits> facts=<12 bits> err=<class>` → finding id or `-` (`C01Regions.classify`) -/
+* `region opts=<16 bits> facts=<12 bits> err=<class>` → finding id or `-` (`C01Regions.classify`) -/
 namespace BindgenModel.Driver.C01
 open BindgenModel.Util BindgenModel.Names
 
@@ -49,7 +49,7 @@ def handle (toks : List String) : String :=
     let bit (s : String) (i : Nat) : Bool := (s.toList.getD i '0') == '1'
     match kv rest "opts", kv rest "facts", kv rest "err" with
     | some o, some f, some e =>
-      let opts : C01Regions.Opts := ⟨bit o 0, bit o 1, bit o 2, bit o 3, bit o 4, bit o 5, bit o 6, bit o 7, bit o 8, bit o 9, bit o 10, bit o 11, bit o 12, bit o 13, bit o 14⟩
+      let opts : C01Regions.Opts := ⟨bit o 0, bit o 1, bit o 2, bit o 3, bit o 4, bit o 5, bit o 6, bit o 7, bit o 8, bit o 9, bit o 10, bit o 11, bit o 12, bit o 13, bit o 14, bit o 15⟩
       let facts : C01Regions.Facts := ⟨bit f 0, bit f 1, bit f 2, bit f 3, bit f 4, bit f 5, bit f 6, bit f 7, bit f 8, bit f 9, bit f 10, bit f 11⟩
       let err : C01Regions.Err :=
         if e == "cmp" then .cmp else if e == "e0423" then .e0423 else if e == "e0530" then .e0530
